@@ -357,6 +357,48 @@ def escape_battery(res, inj, scratch):
         db_roundtrip(res, inj, scratch, pts[k:k + 40], [bool(j % 2) for j in range(len(pts[k:k + 40]))], {})
     for compact in (False, True):
         codec_roundtrip(res, inj, MPoint(1_614_834_367_999_003, "m0", {"k": "v"}, {"x": 10**400}), compact, {})
+    reused_point_object(res, scratch)
+
+
+def reused_point_object(res, scratch):
+    """One Point object written several times with its tags / fields edited in place in between (no setter involved):
+    every insert writes the point as it is at that moment - whatever the object may remember about earlier writes."""
+    from tinyflux import Point, TinyFlux
+
+    from ..common import from_us
+    from ..model import from_real
+
+    for compact in (False, True):
+        path = scratch.new_db_path()
+        path2 = scratch.new_db_path()
+        try:
+            with quiet_stdout():
+                db, db2 = TinyFlux(path), TinyFlux(path2)
+                p = Point(time=from_us(1_614_834_367_000_000), measurement="m0", tags={"k": "a"}, fields={"x": 1})
+                want = []
+                for step in range(4):
+                    db.insert(p, compact_key_prefixes=compact)
+                    want.append(from_real(p).canon())
+                    if step == 1:
+                        db2.insert(p, compact_key_prefixes=not compact)  # the same object, another database, the other style
+                    p.fields["x"] = step + 2          # edited in place
+                    p.tags["k"] = "abc"[step % 3] * (step + 1)
+                    if step == 2:
+                        p.tags["new"] = "n"
+                        del p.fields["x"]
+                db.close()
+                db2.close()
+                got = [from_real(q_).canon() for q_ in TinyFlux(path, auto_index=False).all(sorted=False)]
+                got2 = [from_real(q_).canon() for q_ in TinyFlux(path2, auto_index=False).all(sorted=False)]
+            res.evaluations += 1
+            res.count("reused_point_object_roundtrips")
+            if got != want or got2 != [want[1]]:
+                res.violate(Violation("C05", "roundtrip-mismatch", {"where": "one Point object inserted four times, edited in place in between", "compact": compact,
+                                      "written": repr(want)[:500], "read_back": repr(got)[:500], "second_database": repr(got2)[:200]},
+                                      replay={"reused_point_object": True, "compact": compact}, features={"diff_slots": ["reuse"]}))
+        finally:
+            scratch.drop_db_dir(path)
+            scratch.drop_db_dir(path2)
 
 
 def run(res, tier, seed, shard, nshards):
